@@ -13,6 +13,8 @@ Proof.
     + apply andb_true_iff in H as [H1 H2]. apply N.eqb_eq in H1, H2. subst; reflexivity.
     + apply andb_true_iff in H as [H1 H2]. apply N.eqb_eq in H1, H2. subst; reflexivity.
     + apply N.eqb_eq in H. subst; reflexivity.
+    + apply andb_true_iff in H as [H1 H2]. apply andb_true_iff in H2 as [H2 H3].
+      apply N.eqb_eq in H1, H2, H3. subst; reflexivity.
   - intros ->. destruct b; cbn [obj_eqb]; rewrite ?N.eqb_refl; reflexivity.
 Qed.
 
@@ -165,6 +167,9 @@ Proof.
   - rewrite firstn_cons_firstn.
     replace (rev (as_ev v) ++ [e]) with (rev (e :: as_ev v)) by reflexivity.
     apply subseq_rev. apply subseq_firstn.
+  - apply sub_nil.
+  - apply sub_nil.
+  - apply sub_nil.
   - apply sub_nil.
   - apply sub_nil.
 Qed.
@@ -808,6 +813,16 @@ Qed.
 Lemma last3 : forall (A : Type) (l : list A) a b c, l ++ [a; b; c] = (l ++ [a; b]) ++ [c].
 Proof. intros. rewrite <- app_assoc. reflexivity. Qed.
 
+Lemma last4 : forall (A : Type) (l : list A) a b c d, l ++ [a; b; c; d] = (l ++ [a; b; c]) ++ [d].
+Proof. intros. rewrite <- app_assoc. reflexivity. Qed.
+
+Lemma app4_inj : forall (A : Type) (l1 l2 : list A) a1 b1 c1 d1 a2 b2 c2 d2,
+  l1 ++ [a1; b1; c1; d1] = l2 ++ [a2; b2; c2; d2] -> l1 = l2 /\ a1 = a2 /\ b1 = b2 /\ c1 = c2 /\ d1 = d2.
+Proof.
+  intros A l1 l2 a1 b1 c1 d1 a2 b2 c2 d2 H. rewrite !last4 in H.
+  apply app_inj_tail in H as [H ->]. apply app3_inj in H as [-> [-> [-> ->]]]. auto.
+Qed.
+
 (* distinct journal objects of standard worktrees live in distinct files *)
 Lemma storage_file_injective : forall c gd o1 o2 p,
   (forall w, std_gitdir c (gd w)) -> (forall w1 w2, gd w1 = gd w2 -> w1 = w2) ->
@@ -817,20 +832,21 @@ Proof.
   assert (K1 : s_checkpoints <> s_initial) by (vm_compute; discriminate).
   assert (K2 : s_checkpoints <> s_rewrite_log) by (vm_compute; discriminate).
   assert (K3 : s_initial <> s_rewrite_log) by (vm_compute; discriminate).
-  destruct o1 as [w1 b1 | w1 b1 | w1 |], o2 as [w2 b2 | w2 b2 | w2 |]; cbn [storage_file] in H1, H2;
-    try discriminate; inversion H1 as [E1]; inversion H2 as [E2]; rewrite <- E2 in E1; clear H1 H2 E2.
-  - apply app3_inj in E1 as [Ea [_ [Eb _]]]. inversion Eb.
-    apply ai_dir_injective in Ea; [| apply Std | apply Std]. apply Inj in Ea. subst. reflexivity.
-  - apply app3_inj in E1 as [_ [_ [_ Ek]]]. congruence.
-  - rewrite last3 in E1. apply app_inj_tail in E1 as [_ Ek]. congruence.
-  - apply app3_inj in E1 as [_ [_ [_ Ek]]]. congruence.
-  - apply app3_inj in E1 as [Ea [_ [Eb _]]]. inversion Eb.
-    apply ai_dir_injective in Ea; [| apply Std | apply Std]. apply Inj in Ea. subst. reflexivity.
-  - rewrite last3 in E1. apply app_inj_tail in E1 as [_ Ek]. congruence.
-  - rewrite last3 in E1. apply app_inj_tail in E1 as [_ Ek]. congruence.
-  - rewrite last3 in E1. apply app_inj_tail in E1 as [_ Ek]. congruence.
-  - apply app_inj_tail in E1 as [Ea _].
-    apply ai_dir_injective in Ea; [| apply Std | apply Std]. apply Inj in Ea. subst. reflexivity.
+  assert (S1 : forall x : N, [x] <> s_checkpoints) by (intros x H; vm_compute in H; discriminate).
+  assert (S2 : forall x : N, [x] <> s_initial) by (intros x H; vm_compute in H; discriminate).
+  assert (S3 : forall x : N, [x] <> s_rewrite_log) by (intros x H; vm_compute in H; discriminate).
+  assert (Same : forall w1 w2, ai_dir c (gd w1) = ai_dir c (gd w2) -> w1 = w2).
+  { intros w1 w2 Ea. apply ai_dir_injective in Ea; [| apply Std | apply Std]. apply Inj. assumption. }
+  destruct o1 as [w1 b1 | w1 b1 | w1 | | w1 b1 x1], o2 as [w2 b2 | w2 b2 | w2 | | w2 b2 x2];
+    cbn [storage_file] in H1, H2; try discriminate;
+    inversion H1 as [E1]; inversion H2 as [E2]; rewrite <- E2 in E1; clear H1 H2 E2;
+    try (exfalso; rewrite ?last3, ?last4 in E1; apply app_inj_tail in E1 as [_ Ek];
+         first [ congruence | exact (S1 _ Ek) | exact (S2 _ Ek) | exact (S3 _ Ek)
+               | exact (S1 _ (eq_sym Ek)) | exact (S2 _ (eq_sym Ek)) | exact (S3 _ (eq_sym Ek)) ]).
+  - apply app3_inj in E1 as [Ea [_ [Eb _]]]. inversion Eb. apply Same in Ea. subst. reflexivity.
+  - apply app3_inj in E1 as [Ea [_ [Eb _]]]. inversion Eb. apply Same in Ea. subst. reflexivity.
+  - apply app_inj_tail in E1 as [Ea _]. apply Same in Ea. subst. reflexivity.
+  - apply app4_inj in E1 as [Ea [_ [Eb [_ Es]]]]. inversion Eb. inversion Es. apply Same in Ea. subst. reflexivity.
 Qed.
 
 (* ------------------------------------------------------------------ the known class is sound *)
@@ -944,4 +960,20 @@ Lemma stale_base :
   length (trace_of progs sched) = 14%nat /\ ~ Known_C11 progs sched /\
   cp_ids (final (OCp 0 7)) = [2] /\ cp_ids (final (OCp 0 101)) = [] /\
   as_init (final (OInit 0 101)) = [] /\ as_notes (final ONotes) = [(101, 11)].
+Proof. vm_compute. intuition discriminate. Qed.
+
+(* the blob store: a blob that exists already is rewritten in place (truncate, write); a concurrent
+   checkpoint that reads it back as the previous version of the file can see it EMPTY, although
+   the blob held [1;2] before, holds [1;2] afterwards and nobody ever wrote anything else; the
+   journal windows do not overlap (outside Known_C11) and both checkpoints are kept *)
+Lemma torn_blob :
+  let progs := wit_blob_progs in
+  let sched := sched_torn_blob in
+  let tr := trace_of progs sched in
+  let c := exec tr (init_config wit_blob_store) in
+  length tr = 16%nat /\ ~ Known_C11 progs sched /\
+  as_blob (wit_blob_store (OBlob 0 7 5)) = [1; 2] /\
+  as_blob (shared c (OBlob 0 7 5)) = [1; 2] /\
+  cp_ids (shared c (OCp 0 7)) = [1; 2] /\
+  as_blob (reg c 1%nat (OBlob 0 7 5)) = [].
 Proof. vm_compute. intuition discriminate. Qed.
